@@ -91,7 +91,13 @@ class Provenance:
         if r == 'discr':
             return 'discr(%s)' % self.of_place(rv['pl'], depth - 1)
         if r == 'agg':
-            return 'agg' + suffix
+            k = rv['kind']
+            nm = k.get('adt', k.get('a', 'agg')).split('::')[-1]
+            if k.get('a') == 'adt' and k.get('variant') and k['variant'] != nm:
+                nm += '::' + k['variant']
+            if depth <= 1:
+                return nm + suffix
+            return '%s{%s}%s' % (nm, ','.join(self.of_op(o, depth - 1) for o in rv['ops'][:4]), suffix)
         return 'tmp' + suffix
 
 
